@@ -62,6 +62,22 @@ def check(ctx):
         for ln in sorted(look_names):
             cs = [x for x in contributions(fn, ln) if x["key"] is not None]
             if not cs:
+                # dict(zip(<keys>, <items>)): filled in iteration order of the operands, later pairs overwrite earlier ones
+                for d_ in defs_reaching(fn, ln, fn.node.body[-1]):
+                    v_ = d_.value
+                    if isinstance(v_, ast.Call) and isinstance(v_.func, ast.Name) and v_.func.id == "dict" and len(v_.args) == 1 \
+                            and isinstance(v_.args[0], ast.Call) and isinstance(v_.args[0].func, ast.Name) and v_.args[0].func.id == "zip" \
+                            and len(v_.args[0].args) == 2:
+                        n_lookup += 1
+                        LOOKN = ln
+                        ka, va = (norm(a_) for a_ in v_.args[0].args)
+                        rev = all(("reversed(" in t_ or "[::-1]" in t_) for t_ in (ka, va))
+                        ctx.ob("ORD-4", fn, norm(v_)[:120], v_, rev,
+                               "pairs are zipped over the reversed right list: the first right item with a key is the one found" if rev else
+                               f"dict(zip(...)) fills the lookup in the order of {va}, and a later pair overwrites an earlier one: with duplicate right "
+                               f"keys the LAST item wins instead of the first",
+                               clause="merging in the non-key entries of the first right item with equal key values")
+                        dcs.append(v_)
                 continue
             n_lookup += 1
             LOOKN = ln
